@@ -185,6 +185,7 @@ def build(flavour="plain", repo=None, only=None, verbose=False):
         scratch = os.path.join(BUILD_ROOT, "scratch.%d" % os.getpid())
         names = [n for n in EXTENSIONS if only is None or n in only]
         stale = {}
+        prebuilt = {}
         plans = []
         shim = shim_lib() if flavour == "shim" else None
         for name in names:
@@ -192,7 +193,15 @@ def build(flavour="plain", repo=None, only=None, verbose=False):
             try:
                 gen = _gen_source(repo, name, ext, scratch)
             except StaleCython as e:
-                stale[name] = str(e)
+                # The .pyx changed and its C was not regenerated (no Cython here).  If somebody rebuilt the extension in
+                # place after editing the .pyx (binary newer than every Cython source), that binary is the working tree's
+                # code for this module: use it as it is.  Otherwise the module cannot be brought up to date: stale.
+                intree = os.path.join(repo, name.replace(".", "/") + EXT_SUFFIX)
+                pyx_m = max(os.path.getmtime(os.path.join(repo, p)) for p in ext["pyx"] if os.path.exists(os.path.join(repo, p)))
+                if os.path.exists(intree) and os.path.getmtime(intree) > pyx_m:
+                    prebuilt[name] = intree
+                else:
+                    stale[name] = str(e)
                 continue
             inputs = _ext_inputs(repo, name, ext, gen)
             h = hashlib.sha256()
@@ -203,7 +212,7 @@ def build(flavour="plain", repo=None, only=None, verbose=False):
                 h.update(_sha(f).encode())
             plans.append((name, ext, gen, h.hexdigest()[:20]))
         # overall key
-        allh = hashlib.sha256(json.dumps(sorted((n, k) for n, _, _, k in plans)).encode()).hexdigest()[:20]
+        allh = hashlib.sha256(json.dumps(sorted((n, k) for n, _, _, k in plans) + sorted((n, _sha(f)) for n, f in prebuilt.items())).encode()).hexdigest()[:20]
         outdir = os.path.join(BUILD_ROOT, flavour, allh)
         built = []
         log = []
@@ -257,13 +266,20 @@ def build(flavour="plain", repo=None, only=None, verbose=False):
         t0 = time.time()
         with ThreadPoolExecutor(max_workers=min(11, os.cpu_count() or 4)) as ex:
             list(ex.map(one, plans))
+        for n, f in prebuilt.items():
+            dst = os.path.join(outdir, n.replace(".", "/") + EXT_SUFFIX)
+            os.makedirs(os.path.dirname(dst), exist_ok=True)
+            if not os.path.exists(dst):
+                shutil.copy2(f, dst + ".tmp")
+                os.replace(dst + ".tmp", dst)
         shutil.rmtree(scratch, ignore_errors=True)
         try:
             os.utime(outdir, None)
         except OSError:
             pass
         info = dict(dir=outdir, flavour=flavour, stale=stale, built=built, wall_s=round(time.time() - t0, 2),
-                    modules=[n for n, _, _, _ in plans], shim=shim)
+                    modules=[n for n, _, _, _ in plans] + sorted(prebuilt), shim=shim,
+                    prebuilt_in_tree_binaries_used=sorted(prebuilt))
         oj = os.path.join(outdir, "overlay.json")
         tmpj = oj + ".%d.tmp" % os.getpid()
         with open(tmpj, "w") as f:
